@@ -636,6 +636,8 @@ fn cmd_print(args: &Args) {
                 off += c.numel();
             }
         }
+        // explicitly stored zeros are entries: the header counts stored entries
+        if run % 6 == 1 && !p.A.nzval.is_empty() { let k = rng.gen_range(0..p.A.nzval.len()); p.A.nzval[k] = 0.0; }
         // error exits now and then: a closing row with step 0 at an iteration > 0 (step limit above max_step_fraction), tiny budgets
         if run % 10 == 7 { if !p.settings.is_object() { p.settings = json!({}); } p.settings["min_terminate_step_length"] = json!([0.995, 1.0, 0.9][rng.gen_range(0..3)]); }
         if run % 10 == 2 { if !p.settings.is_object() { p.settings = json!({}); } p.settings["max_iter"] = json!(rng.gen_range(0..4)); }
